@@ -53,6 +53,11 @@ pub const ALPHABET: &[&str] = &[
     /* 13 */ "y = 5, [y, 0x01] __integer_add__",
     /* 14 */ "[]",
     /* 15 */ "{ | =('int)n => [n, 1] __integer_add__ | ~ => 1 | 0 }",
+    // a compiler-rejected line that imports a module (possibly the session's first import of it),
+    // the same import in an accepted line, and a type alias that takes the name of a variable
+    /* 16 */ "[7, 2] %int.div nope",
+    /* 17 */ "[7, 2] %int.div",
+    /* 18 */ "'x = 'int",
 ];
 
 /// Replacement lines tried by the shrinker, simplest first ("the simplest term of its sort").
@@ -798,6 +803,22 @@ fn judge(lines: &[String], mode: Mode) -> Result<Judged, String> {
                         expected: format!("state without it: {}", show_snap(&last_snap)),
                     });
                 }
+                // a line rejected after earlier rejected lines is rejected without them too
+                // (and in the same way); otherwise an earlier rejected line left something behind
+                if !dead2 && (0..i).any(|j| obs[j].rejected()) {
+                    let o2 = s2.eval(&lines[i]);
+                    if o2 != obs[i] {
+                        fails.push(Fail {
+                            class: "rejected-line",
+                            sub: String::new(),
+                            at: i,
+                            observed: format!("line yields {}", obs[i].show()),
+                            expected: format!("{} (same history without the earlier rejected lines)", o2.show()),
+                        });
+                        // the clean session has moved on; nothing after this line is comparable
+                        dead2 = true;
+                    }
+                }
                 continue;
             }
             if dead2 {
@@ -953,6 +974,9 @@ struct NodeRec {
     clean_key: u64,
     has_rejected: bool,
     last_rejected: bool,
+    /// the history with the rejected lines of its *prefix* removed and its last line kept,
+    /// whatever that line's own fate (0 = no rejected line in the prefix)
+    prefix_clean_key: u64,
     outcome: u64,
     state: u128,
     /// the snapshot could be taken (otherwise a `broken` failure was reported at this node)
@@ -1061,8 +1085,17 @@ impl Dfs<'_> {
             .filter(|(_, o)| !o.rejected())
             .map(|(c, _)| *c)
             .collect();
+        let mut prefix_clean: Vec<u8> = hist[..hist.len() - 1]
+            .iter()
+            .zip(&obs)
+            .filter(|(_, o)| !o.rejected())
+            .map(|(c, _)| *c)
+            .collect();
+        let prefix_has_rejected = prefix_clean.len() != hist.len() - 1;
+        prefix_clean.push(c);
         self.out.nodes.push(NodeRec {
             key: key_of(&hist),
+            prefix_clean_key: if prefix_has_rejected { key_of(&prefix_clean) } else { 0 },
             clean_key: key_of(&clean),
             has_rejected: clean.len() != hist.len(),
             last_rejected: o.rejected(),
@@ -1306,6 +1339,29 @@ fn rejected_line_pass(out: &mut SliceOut) -> (u64, u64) {
         checked += 1;
         let bad = s != n.state || (!n.last_rejected && o != n.outcome);
         if bad {
+            failing.push(n.key);
+        }
+    }
+    // the same clause, line by line: a line entered after rejected lines behaves (value, error,
+    // state) exactly as it does in the history without them — also when it is rejected itself
+    // (a rejected line that makes a later, otherwise fine line fail would escape the comparison
+    // above, which drops every rejected line)
+    let mut all: HashMap<u64, (u64, u128)> = HashMap::new();
+    for n in &out.nodes {
+        if n.readable {
+            all.insert(n.key, (n.outcome, n.state));
+        }
+    }
+    for n in &out.nodes {
+        if n.prefix_clean_key == 0 || !n.readable {
+            continue;
+        }
+        let Some((o, s)) = all.get(&n.prefix_clean_key).copied() else {
+            missing += 1;
+            continue;
+        };
+        checked += 1;
+        if (s != n.state || o != n.outcome) && !failing.contains(&n.key) {
             failing.push(n.key);
         }
     }
